@@ -3,6 +3,7 @@
 package ctlog
 
 import (
+	"bytes"
 	"fmt"
 	"os"
 	"strings"
@@ -55,7 +56,7 @@ func TestVerifC04Storage(t *testing.T) {
 			s.auditOnPublish = true
 			s.auditNames = true
 			s.auditOnPublish = true
-			h := &simHist{s: s, opts: simHistOpts{MaxRounds: 7, ClockFaults: false, Faults: true, Shapes: c04Shapes, Existing: big, RoundDuringSubmit: true, CancelRounds: true}, nextID: bigNext}
+			h := &simHist{s: s, opts: simHistOpts{MaxRounds: 7, ClockFaults: true, Faults: true, Shapes: c04Shapes, Existing: big, RoundDuringSubmit: true, CancelRounds: true}, nextID: bigNext}
 			partialToFull := false
 			lastPub := int64(0)
 			h.afterRound = func(res *simRoundResult) error {
@@ -83,8 +84,11 @@ func TestVerifC04Storage(t *testing.T) {
 			if err != nil {
 				t.Fatalf("C04 violated: %v\nhistory:\n  %s", err, strings.Join(h.st.Desc, "\n  "))
 			}
-			pre, iss, parse := 0, 0, 0
+			pre, iss, parse, quirky := 0, 0, 0, 0
 			for _, e := range s.model {
+				if bytes.Contains(e.Cert, simQuirkyIP) || bytes.Contains(e.PreCert, simQuirkyIP) {
+					quirky++
+				}
 				if e.IsPrecert {
 					pre++
 				}
@@ -108,6 +112,7 @@ func TestVerifC04Storage(t *testing.T) {
 			add(pre > 0, "has-precert")
 			add(iss > 0, "has-issuers")
 			add(parse > 0, "has-parseable")
+			add(quirky > 0, "has-certificate-with-tolerated-encoding-defect")
 			add(h.st.FaultsFired > 0, "fault-fired")
 			add(h.st.Crashes > 0, "crash")
 			add(h.st.MultiTile > 0, "multi-tile-round")
